@@ -21,7 +21,7 @@ var histAlphabet = []string{
 	"MAIL", "MAIL_NULL", "MAIL_REJ", "MAIL_BAD", "MAIL_PARAM",
 	"RCPT", "RCPT_REJ", "RCPT_BAD",
 	"DATA", "DATA_REJ", "DATA_ARG",
-	"BDAT", "BDAT_LAST", "BDAT0", "BDAT0_LAST", "BDAT_LAST_REJ", "BDAT_FAIL", "BDAT_BADSIZE", "BDAT_NOARG",
+	"BDAT", "BDAT_LAST", "BDAT0", "BDAT0_LAST", "BDAT_LAST_REJ", "BDAT_FAIL", "BDAT_FAIL_LAST", "BDAT_BADSIZE", "BDAT_NOARG",
 	"RSET", "NOOP", "VRFY",
 	"AUTH_OK", "AUTH_FAIL", "AUTH_CANCEL", "AUTH_2STEP",
 	"STARTTLS", "QUIT", "UNKNOWN", "HELP", "EMPTY", "SHORT",
@@ -160,18 +160,18 @@ func hRender(i int, abs string, mode srvMode) rcmd {
 	case "DATA_ARG":
 		c.Kind = "bad"
 		c.Send = line("DATA now")
-	case "BDAT", "BDAT_LAST", "BDAT_LAST_REJ", "BDAT_FAIL":
+	case "BDAT", "BDAT_LAST", "BDAT_LAST_REJ", "BDAT_FAIL", "BDAT_FAIL_LAST":
 		c.Kind = "bdat"
 		pay := fmt.Sprintf("ID:%d\r\nchunk-data\r\n", i)
 		switch abs {
 		case "BDAT_LAST_REJ":
 			pay = fmt.Sprintf("ID:%d\r\nREJECT\r\n", i)
 			c.Reject, c.Token = true, fmt.Sprintf("v#m%d", i)
-		case "BDAT_FAIL":
+		case "BDAT_FAIL", "BDAT_FAIL_LAST":
 			pay = fmt.Sprintf("FAILEARLY ID:%d\r\nmore data here\r\n", i)
 			c.Reject, c.Token = true, fmt.Sprintf("v#m%d", i)
 		}
-		c.Last = abs == "BDAT_LAST" || abs == "BDAT_LAST_REJ"
+		c.Last = abs == "BDAT_LAST" || abs == "BDAT_LAST_REJ" || abs == "BDAT_FAIL_LAST"
 		cmd := fmt.Sprintf("BDAT %d", len(pay))
 		if c.Last {
 			cmd += " LAST"
@@ -906,12 +906,18 @@ func histMonitor(run *histRun) []hviol {
 						}
 						continue
 					}
+					// the early failure is scripted by the first octets of the transfer: a FAIL chunk that
+					// is not the first one of its transfer is ordinary content
+					if c.Abs == "BDAT_FAIL_LAST" && st.chunk {
+						continue // whether the backend sees FAILEARLY first depends on the earlier chunks being empty
+					}
+					rej := c.Reject
 					switch {
-					case c.Reject && r.Class() == 2:
+					case rej && r.Class() == 2:
 						add("C04:attribution:bdat", "%s: backend rejected the message but the final reply is %s", name, r)
-					case c.Reject && !strings.Contains(r.Text(), c.Token) && c.Abs == "BDAT_LAST_REJ" && !st.chunk:
+					case rej && !strings.Contains(r.Text(), c.Token) && (c.Abs == "BDAT_LAST_REJ" || c.Abs == "BDAT_FAIL_LAST") && !st.chunk:
 						add("C04:attribution:bdat", "%s: final reply %s does not carry this message's error %q", name, r, c.Token)
-					case !c.Reject && r.Class() != 2:
+					case !rej && r.Class() != 2:
 						add("C04:attribution:bdat", "%s: backend accepted the message but the final reply is %s", name, r)
 					}
 				}
